@@ -67,7 +67,8 @@ Definition qsolve (M : qm) (b : qv) : option qv :=
 Definition qinv (M : qm) : option qm :=
   let n := length M in
   match solve_candidate M (qident n) with
-  | Some X => if qcll_eqb (qmatmul n M X) (qident n) && qcll_eqb (qmatmul n X M) (qident n) then Some X else None
+  | Some X => if qcll_eqb (qmatmul n M X) (qident n) && qcll_eqb (qmatmul n X M) (qident n)
+                 && Nat.eqb (length X) n && forallb (fun r => Nat.eqb (length r) n) X then Some X else None
   | None => None
   end.
 
@@ -119,6 +120,9 @@ Inductive outcome := Val (x : qv) | ENotImpl | EValue | ELinAlg.
    ------------------------------------------------------------------------------------------------ *)
 Definition map_core (m n : nat) (A : qm) (b x0 : qv) (Ce Cx : npcov) : outcome :=
   if negb (Nat.eqb (length x0) n) then EValue else            (* A@x0 with a length-1 mean and n > 1 *)
+  if negb (forallb (fun r => Nat.eqb (length r) n) A) then EValue else
+                     (* A@x0 / A@Cx with a stored matrix whose column count is not the parameter dimension
+                        (get_matrix() of a matrix model returns the FUNCTION-space matrix whatever the geometry) *)
   let rhs := qvsub b (qmatvec A x0) in
   match Cx with
   | NMat CxM =>
@@ -237,22 +241,27 @@ Definition sample_direct (fixed : bool) (m n : nat) (A : qm) (b x0 : qv) (ce cx 
 (* ------------------------------------------------------------------------------------------------
    route selection: _check_posterior, MAP, sample_posterior (first two branches), _solve_max_point
    ------------------------------------------------------------------------------------------------ *)
-Inductive dcls := DGaussian | DGMRF | DLMRF | DCMRF | DLaplace | DCauchy | DRegGaussian | DOther.
+Inductive dcls := DGaussian | DGMRF | DLMRF | DCMRF | DLaplace | DCauchy | DRegGaussian | DOther
+                | DRegGMRF | DBeta | DInvGamma | DLognormal.
 Inductive mcls := MLinear | MGeneral.
 Definition dcls_eqb (a b : dcls) : bool :=
   match a, b with
   | DGaussian, DGaussian | DGMRF, DGMRF | DLMRF, DLMRF | DCMRF, DCMRF | DLaplace, DLaplace
-  | DCauchy, DCauchy | DRegGaussian, DRegGaussian | DOther, DOther => true
+  | DCauchy, DCauchy | DRegGaussian, DRegGaussian | DOther, DOther
+  | DRegGMRF, DRegGMRF | DBeta, DBeta | DInvGamma, DInvGamma | DLognormal, DLognormal => true
   | _, _ => false
   end.
+(* isinstance(obj of class a, b): class equality, plus the one subclass relation among these classes
+   (RegularizedGMRF and the Constrained/Nonnegative variants derive from RegularizedGaussian) *)
+Definition dcls_isa (a b : dcls) : bool :=
+  dcls_eqb a b || match a, b with DRegGMRF, DRegGaussian => true | _, _ => false end.
 
 Record pinfo := { p_prior : dcls; p_lik : dcls; p_model : mcls; p_m : nat; p_n : nat; p_has_grad : bool }.
 
-(* isinstance is class equality here: none of these cuqi classes derives from another one of the list *)
 Definition check_posterior (P : pinfo) (prior lik : option (list dcls)) (model : option mcls)
            (max_dim : option nat) (must_have_gradient : bool) : bool :=
-  let okp := match prior with None => true | Some l => existsb (dcls_eqb (p_prior P)) l end in
-  let okl := match lik with None => true | Some l => existsb (dcls_eqb (p_lik P)) l end in
+  let okp := match prior with None => true | Some l => existsb (dcls_isa (p_prior P)) l end in
+  let okl := match lik with None => true | Some l => existsb (dcls_isa (p_lik P)) l end in
   let okm := match model with None => true
              | Some MLinear => match p_model P with MLinear => true | _ => false end
              | Some MGeneral => true end in
@@ -269,6 +278,20 @@ Definition map_route (P : pinfo) (max_dim_inv : nat) : route :=
 Definition sample_route_direct (P : pinfo) (max_dim_inv : nat) : bool :=
   check_posterior P (Some [DGaussian]) (Some [DGaussian]) (Some MLinear) (Some max_dim_inv) false
   && negb (check_posterior P (Some [DGMRF]) None None None false).
+
+(* sample_posterior: the whole cascade.  joint = the target is still a JointDistribution;
+   prior_sptm = hasattr(prior, "sqrtprecTimesMean"); lik_sqrtprec = hasattr(likelihood.distribution, "sqrtprec") *)
+Inductive sampler_choice := SGibbs | SMapCholesky | SLinearRTO | SUGLA | SNUTS | SpCN | SRegLinearRTO | SNotImplemented.
+Definition sample_route (joint : bool) (P : pinfo) (prior_sptm lik_sqrtprec : bool) (max_dim_inv : nat) : sampler_choice :=
+  if joint then SGibbs else
+  if sample_route_direct P max_dim_inv then SMapCholesky else
+  if prior_sptm && lik_sqrtprec && (match p_model P with MLinear => true | MGeneral => false end) then SLinearRTO else
+  if check_posterior P (Some [DLMRF]) (Some [DGaussian]) None None false then SUGLA else
+  if check_posterior P None None None None true
+     && negb (check_posterior P (Some [DBeta; DInvGamma; DLognormal]) None None None false) then SNUTS else
+  if check_posterior P (Some [DGaussian; DGMRF]) (Some [DGaussian]) None None false then SpCN else
+  if check_posterior P (Some [DRegGaussian; DRegGMRF]) (Some [DGaussian]) (Some MLinear) None false then SRegLinearRTO
+  else SNotImplemented.
 
 Inductive solver := SMinimize | SLBFGSB.
 (* _solve_max_point: (solver class, gradient function handed over?, starting point) *)
@@ -350,7 +373,8 @@ Definition check_opt_ml (m n : nat) (A : list (list Q)) (b : list Q) (ge : gdesc
 
 Definition mk_dcls (k : nat) : dcls :=
   match k with 0%nat => DGaussian | 1%nat => DGMRF | 2%nat => DLMRF | 3%nat => DCMRF | 4%nat => DLaplace
-             | 5%nat => DCauchy | 6%nat => DRegGaussian | _ => DOther end.
+             | 5%nat => DCauchy | 6%nat => DRegGaussian | 8%nat => DRegGMRF | 9%nat => DBeta | 10%nat => DInvGamma
+             | 11%nat => DLognormal | _ => DOther end.
 Definition mk_pinfo (prior lik : nat) (linear : bool) (m n : nat) (has_grad : bool) : pinfo :=
   {| p_prior := mk_dcls prior; p_lik := mk_dcls lik; p_model := if linear then MLinear else MGeneral;
      p_m := m; p_n := n; p_has_grad := has_grad |}.
@@ -367,3 +391,21 @@ Definition check_setup (P : pinfo) (density_has_grad : bool) (x0 : option (list 
   let '(s, g, st) := solve_max_point_setup P density_has_grad (match x0 with Some v => Some (qvec v) | None => None end) in
   Bool.eqb (match s with SLBFGSB => true | SMinimize => false end) lbfgs
   && Bool.eqb g grad_passed && qcl_eqb st (qvec start) && returned_is_solver_point && label_ok.
+
+(* observed: the index of the _sample* method sample_posterior called (7 = NotImplementedError raised) *)
+Definition sampler_index (c : sampler_choice) : nat :=
+  match c with SGibbs => 0 | SMapCholesky => 1 | SLinearRTO => 2 | SUGLA => 3 | SNUTS => 4 | SpCN => 5
+             | SRegLinearRTO => 6 | SNotImplemented => 7 end%nat.
+Definition check_cascade (joint : bool) (P : pinfo) (prior_sptm lik_sqrtprec : bool) (max_dim_inv observed : nat) : bool :=
+  Nat.eqb (sampler_index (sample_route joint P prior_sptm lik_sqrtprec max_dim_inv)) observed.
+
+(* scale-free comparison for the magnitude sweep: every component within tol * max_i |model_i| *)
+Definition qmaxabs (v : list Qc) : Q := fold_right (fun a m => if Qle_bool m (Qabs (this a)) then Qabs (this a) else m) 0%Q v.
+Definition qcl_relclose (tol : Q) (observed model : list Qc) : bool :=
+  Nat.eqb (length observed) (length model) &&
+  forallb (fun p => Qle_bool (Qabs (this (fst p) - this (snd p))) (tol * qmaxabs model)) (combine observed model).
+Definition check_map_rel (fixed : bool) (m n : nat) (A : list (list Q)) (b x0 : list Q) (ge gx : gdesc) (w : list Q) : bool :=
+  match map_direct fixed m n (qmat A) (qvec b) (qvec x0) (gd_cov ge) (gd_cov gx) with
+  | Val x => qcl_relclose tol8 (qvec w) x
+  | _ => false
+  end.
